@@ -18,6 +18,7 @@ type Series struct {
 	Name    string   `json:"name"`
 	Tags    []string `json:"tags"`
 	Src     string   `json:"src"`
+	Spare   int      `json:"spare,omitempty"`   // spare capacity of the Tags slice (cap - len), as append-built tag lists have
 	Value   int64    `json:"value,omitempty"`   // counter
 	PS      uint64   `json:"ps,omitempty"`      // counter / timer per second
 	GV      uint64   `json:"gv,omitempty"`      // gauge value
@@ -88,8 +89,11 @@ func (in *input) subtypes() gostatsd.TimerSubtypes {
 func (in *input) buildMap() *gostatsd.MetricMap {
 	mm := gostatsd.NewMetricMap(false)
 	for _, s := range in.Series {
-		tags := append(gostatsd.Tags{}, s.Tags...)
-		if len(tags) == 0 {
+		// the pipeline builds tag lists by appending (static tags, cloud tags, AddTagsSetSource):
+		// the slice usually has spare capacity, so an append by a backend may write into it
+		tags := make(gostatsd.Tags, len(s.Tags), len(s.Tags)+s.Spare)
+		copy(tags, s.Tags)
+		if len(tags) == 0 && s.Spare == 0 {
 			tags = nil
 		}
 		key := gostatsd.FormatTagsKey(gostatsd.Source(s.Src), append(gostatsd.Tags{}, s.Tags...))
